@@ -224,6 +224,9 @@ func (m *Model) v(prop, rule, facts, msg string, op int) {
 func (m *Model) probe(n string) { m.Probes[n]++ }
 
 func (m *Model) vAlways(prop, rule, facts, msg string, op int) {
+	if m.degraded {
+		return
+	}
 	t := m.track
 	m.track = false
 	m.v(prop, rule, facts, msg, op)
@@ -510,7 +513,12 @@ func (m *Model) newSC(ev Event) {
 		}
 		ch := m.chans[cm.ch]
 		if ch.refreshing {
-			m.v("C07", "second-replacement", "", fmt.Sprintf("channel %d got a second replacement sc%d while sc%d is still pending", ch.idx, ev.Conn, ch.repl), ev.Op)
+			// schedule-independent (also judged during concurrent bursts): while the
+			// replacement of a channel is pending - no READY report for it has even
+			// started - no completion may create another one
+			msg := fmt.Sprintf("channel %d got a second replacement sc%d while sc%d is still pending", ch.idx, ev.Conn, ch.repl)
+			m.vAlways("C07", "second-replacement", "", msg, ev.Op)
+			m.vAlways("C03", "two-extra-connections-for-one-channel", "", msg+" (a refresh may hold one extra connection per refreshing channel)", ev.Op)
 		}
 		ch.refreshing = true
 		ch.repl = ev.Conn
